@@ -155,11 +155,11 @@ Section Client.
           let last := match ws_size st with Some z => z <=? ws_pos st + n | None => false end in
           let command1 := if last then Z.lor command0 NO_MORE_DATA else command0 in
           let command := Z.lor command1 (Z.shiftl (7 - n) 1) in
-          (* toggle and _done are updated before the request is sent; an SDO error of the exchange
+          (* toggle and _done advance only after the segment was confirmed (fix b4d915e): a write() repeated
+             after a failed transmission sends the same segment again.  An SDO error of the exchange
              (time-out, abort, unexpected response) ends the transfer: _done = True, _error = exc *)
-          let st1 := {| ws_size := ws_size st; ws_pos := ws_pos st; ws_toggle := toggle';
-                        ws_exp := None; ws_done := last; ws_error := ws_error st |} in
-          let failed (e : option Z) := {| ws_size := ws_size st; ws_pos := ws_pos st; ws_toggle := toggle';
+          let st1 := st in
+          let failed (e : option Z) := {| ws_size := ws_size st; ws_pos := ws_pos st; ws_toggle := ws_toggle st;
                                           ws_exp := None; ws_done := true; ws_error := Some e |} in
           let req := command :: pad_to 7 (firstn (Z.to_nat n) b) in
           let '(w1, r) := request_response w req in
